@@ -470,7 +470,25 @@ func emitParse(src, s string) {
 var rnd *rand.Rand
 
 var richAlpha = []string{"\"", "@", "[", "]", "<", ">", "^", ":", "\\", "/", "_", "\t", " ", "a", "b", "1", "é", " ", "\xff",
-	"\"@[", "\"^^type:", "] /", "> \"", "] \"", "\n", "type:", "text", "-", ".", "e", "T", "Z"}
+	"\"@[", "\"^^type:", "] /", "> \"", "] \"", "\n", "type:", "text", "-", ".", "e", "T", "Z",
+	"#", " #", "\" #", "\t#", "//", " //", ";", " ;", "--", " --", "%", " %", "\" //", "\" ;", "\" --", "\" %"}
+
+// comment / delimiter candidates of line-oriented formats, placed after a blank and after an odd number of embedded
+// double quotes: a reader that strips comments or tracks quotes cuts such values
+var commentMarks = []string{"#", "//", ";", "--", "%", "!", "/*", "REM "}
+
+func genCommentText() string {
+	var b strings.Builder
+	b.WriteString(pick([]string{"", "a", "3.5", "the "}))
+	for q := rnd.Intn(4); q > 0; q-- {
+		b.WriteString("\"")
+		b.WriteString(pick([]string{"", "blue", " floppy", "x y"}))
+	}
+	b.WriteString(pick([]string{" ", "\t", "", "  "}))
+	b.WriteString(pick(commentMarks))
+	b.WriteString(pick([]string{"", "2", " rest", "\" tail"}))
+	return b.String()
+}
 
 func pick(xs []string) string { return xs[rnd.Intn(len(xs))] }
 
@@ -534,6 +552,9 @@ func genNode() *node.Node {
 		if rnd.Intn(8) == 0 {
 			id = genEscText(3)
 		}
+		if rnd.Intn(8) == 0 {
+			id = genCommentText()
+		}
 		n, err := node.NewNodeFromStrings(genType(), id)
 		if err == nil {
 			return n
@@ -591,6 +612,9 @@ func genPredID() string {
 		}
 		if rnd.Intn(8) == 0 {
 			id = genEscText(3)
+		}
+		if rnd.Intn(8) == 0 {
+			id = genCommentText()
 		}
 		if id != "" {
 			return id
@@ -655,6 +679,9 @@ func genLit() *literal.Literal {
 		}
 		if rnd.Intn(4) == 0 {
 			s = genEscText(4)
+		}
+		if rnd.Intn(5) == 0 {
+			s = genCommentText()
 		}
 		l, _ = b.Build(literal.Text, s)
 	default:
@@ -1176,6 +1203,9 @@ func modeGraph(n int) {
 		{"graph-node-id-newline", []*triple.Triple{mk(nodeOf("/c", "d\ne"))}},
 		{"graph-text-cr", []*triple.Triple{mk(litOf(literal.Text, "a\rb\r")), mk(litOf(literal.Text, " x "))}},
 		{"graph-uuid-collision", []*triple.Triple{mk(litOf(literal.Text, "true")), mk(litOf(literal.Bool, true))}},
+		{"graph-comment-marks", []*triple.Triple{mk(litOf(literal.Text, "issue #12")), mk(litOf(literal.Text, "3.5\" floppy #2")),
+			mk(nodeOf("/c", "a #b")), mk(nodeOf("/c", "x\" ;y")), mk(litOf(literal.Text, "a\" //b")), mk(litOf(literal.Text, "#")),
+			mk(litOf(literal.Text, "50 % \" -- x")), mk(immOf("p\" #q"))}},
 	}
 	for i := -len(corpus); i < n+3; i++ {
 		k := rnd.Intn(8)
@@ -1255,7 +1285,9 @@ func modeGraph(n int) {
 }
 
 func modeReader(n int) {
-	fixed := []string{"", "\n", "\n\n", " \t \n", "\u00a0\n/a<b>\t\"p\"@[]\t/c<d>\n\u3000 \u2003\n", "\u00a0/a<b>\t\"p\"@[]\t/c<d>\u0085\r\n\xc2\n/a<b>\t\"q\"@[]\t/c<d>\n", "/a<b>\t\"p\"@[]\t/c<d>", "/a<b>\t\"p\"@[]\t/c<d>\n", "/a<b>\t\"p\"@[]\t/c<d>\r\n/a<b>\t\"q\"@[]\t/c<d>\r\n",
+	fixed := []string{"", "\n", "\n\n", " \t \n",
+		"/a<b>\t\"p\"@[]\t\"3.5\" floppy #2\"^^type:text\n/a<x #y>\t\"q\"@[]\t/c<d>\n/a<b>\t\"r ;s\"@[]\t\"a\" //b\"^^type:text\n",
+		"# a comment line\n/a<b>\t\"p\"@[]\t/c<d>\n", "/a<b>\t\"p\"@[]\t/c<d> # trailing comment\n/a<b>\t\"q\"@[]\t/c<d>\n", "\u00a0\n/a<b>\t\"p\"@[]\t/c<d>\n\u3000 \u2003\n", "\u00a0/a<b>\t\"p\"@[]\t/c<d>\u0085\r\n\xc2\n/a<b>\t\"q\"@[]\t/c<d>\n", "/a<b>\t\"p\"@[]\t/c<d>", "/a<b>\t\"p\"@[]\t/c<d>\n", "/a<b>\t\"p\"@[]\t/c<d>\r\n/a<b>\t\"q\"@[]\t/c<d>\r\n",
 		"/a<b>\t\"p\"@[]\t/c<d>\nbad\n/a<b>\t\"q\"@[]\t/c<d>\n", "bad", "/a<b>\t\"p\"@[]\t\"x\\\"^^type:text\"@[]\n",
 		"/a<b>\t\"p\"@[]\t/c<d>\n/a<b>\t\"p\"@[]\t/c<d>\n", "/a<b>\t\"p\"@[]\t\"a\nb\"^^type:text\n", "\r\n\r\n/a<b>\t\"p\"@[]\t/c<d>\r",
 		"/a<x] /y>\t\"p\"@[]\t/b<c>\n"}
